@@ -38,16 +38,34 @@ Inductive mode := PopOn | RollUp (n : Z) | PaintOn.
 Record scr := mkScr { disp : mem ; nond : mem ; md : mode ; crow : Z ; ccol : Z ;
                       pcol : Z ; pita : bool ; pund : bool ;       (* pen: colour, italics, underline *)
                       last : option Z ;                             (* last control pair, for section 6.4 *)
-                      chan : Z }.                                   (* data channel being addressed: 1 or 2 *)
-Definition scr0 : scr := mkScr mem0 mem0 PopOn 15 0 white false false None 1.
+                      chan : Z ;                                    (* data channel being addressed: 1 or 2 *)
+                      (* bookkeeping used only by the recorded deviations below *)
+                      lastk : option Z ;                            (* last channel-1 control pair, kept across nulls *)
+                      pmid : bool }.                                (* the last channel-1 word was a mid-row code *)
+Definition scr0 : scr := mkScr mem0 mem0 PopOn 15 0 white false false None 1 None false.
 
-Definition set_disp s x := mkScr x (nond s) (md s) (crow s) (ccol s) (pcol s) (pita s) (pund s) (last s) (chan s).
-Definition set_nond s x := mkScr (disp s) x (md s) (crow s) (ccol s) (pcol s) (pita s) (pund s) (last s) (chan s).
-Definition set_md s x := mkScr (disp s) (nond s) x (crow s) (ccol s) (pcol s) (pita s) (pund s) (last s) (chan s).
-Definition set_pos s r c := mkScr (disp s) (nond s) (md s) r c (pcol s) (pita s) (pund s) (last s) (chan s).
-Definition set_pen s co i u := mkScr (disp s) (nond s) (md s) (crow s) (ccol s) co i u (last s) (chan s).
-Definition set_last s x := mkScr (disp s) (nond s) (md s) (crow s) (ccol s) (pcol s) (pita s) (pund s) x (chan s).
-Definition set_chan s x := mkScr (disp s) (nond s) (md s) (crow s) (ccol s) (pcol s) (pita s) (pund s) (last s) x.
+Definition set_disp s x := mkScr x (nond s) (md s) (crow s) (ccol s) (pcol s) (pita s) (pund s) (last s) (chan s) (lastk s) (pmid s).
+Definition set_nond s x := mkScr (disp s) x (md s) (crow s) (ccol s) (pcol s) (pita s) (pund s) (last s) (chan s) (lastk s) (pmid s).
+Definition set_md s x := mkScr (disp s) (nond s) x (crow s) (ccol s) (pcol s) (pita s) (pund s) (last s) (chan s) (lastk s) (pmid s).
+Definition set_pos s r c := mkScr (disp s) (nond s) (md s) r c (pcol s) (pita s) (pund s) (last s) (chan s) (lastk s) (pmid s).
+Definition set_pen s co i u := mkScr (disp s) (nond s) (md s) (crow s) (ccol s) co i u (last s) (chan s) (lastk s) (pmid s).
+Definition set_last s x := mkScr (disp s) (nond s) (md s) (crow s) (ccol s) (pcol s) (pita s) (pund s) x (chan s) (lastk s) (pmid s).
+Definition set_chan s x := mkScr (disp s) (nond s) (md s) (crow s) (ccol s) (pcol s) (pita s) (pund s) (last s) x (lastk s) (pmid s).
+Definition set_lastk s x := mkScr (disp s) (nond s) (md s) (crow s) (ccol s) (pcol s) (pita s) (pund s) (last s) (chan s) x (pmid s).
+Definition set_pmid s x := mkScr (disp s) (nond s) (md s) (crow s) (ccol s) (pcol s) (pita s) (pund s) (last s) (chan s) (lastk s) x.
+
+(* Recorded deviations of the reader from the standard (Findings/C08.v).  dev0 is the standard; each flag
+   replaces one rule by what the reader does, so that a recorded finding excuses exactly its own effect:
+     v_pad_keeps   a control pair repeated after null padding / other-channel words is still taken for the
+                   second copy of a doubled code (the standard: only the immediately following pair)
+     v_base15      in roll-up mode every PAC addresses row 15; PACs for rows 5-11 also lose indent and attributes
+     v_ital_white  the mid-row italics code makes the text white (the standard: the colour is kept), unless it
+                   directly follows another mid-row code
+     v_pac_clears  in paint-on mode a PAC erases the row it addresses
+     v_der_ignored Delete to End of Row does nothing *)
+Record dev := mkDev { v_pad_keeps : bool ; v_base15 : bool ; v_ital_white : bool ; v_pac_clears : bool ; v_der_ignored : bool }.
+Definition dev0 := mkDev false false false false false.
+Definition dev_all := mkDev true true true true true.
 
 (* the memory characters are written to: the non-displayed one in pop-on mode, the displayed one otherwise *)
 Definition cur_mem (s : scr) : mem := match md s with PopOn => nond s | _ => disp s end.
@@ -81,7 +99,8 @@ Definition kRCL := 0.  Definition kBS := 1.  Definition kDER := 4.  Definition k
 Definition kRU4 := 7.  Definition kRDC := 9.  Definition kEDM := 12.  Definition kCR := 13.  Definition kENM := 14.
 Definition kEOC := 15.  Definition kTO1 := 16.
 
-Definition control (s : scr) (code : Z) : scr :=
+(* miscellaneous control codes (CTA-608-E Table 52; receiver behaviour 47 CFR 15.119(f)) *)
+Definition control (v : dev) (s : scr) (code : Z) : scr :=
   if code =? kRCL then set_md s PopOn
   else if code =? kRDC then set_md s PaintOn
   else if (kRU2 <=? code) && (code <=? kRU4) then
@@ -96,7 +115,9 @@ Definition control (s : scr) (code : Z) : scr :=
     | _ => s
     end
   else if code =? kBS then back s
-  else if code =? kDER then set_cur_mem s (row_set (cur_mem s) (crow s) (blank_from (Z.to_nat (ccol s)) (row_get (cur_mem s) (crow s))))
+  else if code =? kDER then
+    if v_der_ignored v then s
+    else set_cur_mem s (row_set (cur_mem s) (crow s) (blank_from (Z.to_nat (ccol s)) (row_get (cur_mem s) (crow s))))
   else if code =? kEDM then set_disp s mem0
   else if code =? kENM then set_nond s mem0
   else if code =? kEOC then set_md (set_nond (set_disp s (nond s)) (disp s)) PopOn
@@ -105,50 +126,55 @@ Definition control (s : scr) (code : Z) : scr :=
 
 (* preamble address code: row, and either an indent (white, no italics) or a colour / italics; underline flag.
    In roll-up mode the PAC's row becomes the base row and the window moves with it (15.119(f)(1)(iii)). *)
-Definition pac (s : scr) (d : dec) : scr :=
+Definition pac (v : dev) (s : scr) (d : dec) : scr :=
   let r := d_row d in
   let c := if d_indent d =? -1 then 0 else d_indent d in
   let s1 := set_pen s (if d_color d =? -1 then white else d_color d) (d_italic d) (d_under d) in
   match md s with
-  | RollUp n => let r' := Z.max r n in
-                set_pos (set_disp s1 (move_window (disp s1) (crow s1) n r')) r' c
-  | _ => set_pos s1 r c
+  | RollUp n =>
+      if v_base15 v then
+        if (5 <=? r) && (r <=? 11) then set_pos (set_disp s (move_window (disp s) (crow s) n 15)) 15 0
+        else set_pos (set_disp s1 (move_window (disp s1) (crow s1) n 15)) 15 c
+      else
+        let r' := Z.max r n in
+        set_pos (set_disp s1 (move_window (disp s1) (crow s1) n r')) r' c
+  | PaintOn => if v_pac_clears v then set_pos (set_disp s1 (row_set (disp s1) r blank_row)) r c else set_pos s1 r c
+  | PopOn => set_pos s1 r c
   end.
 (* mid-row code: occupies one cell shown as a space, then changes the pen: a colour code ends italics, the
    italics code keeps the colour; the underline flag is set by every code *)
-Definition midrow (s : scr) (d : dec) : scr :=
+Definition midrow (v : dev) (s : scr) (d : dec) : scr :=
   let s1 := put s 32 in
-  if d_italic d then set_pen s1 (pcol s1) true (d_under d) else set_pen s1 (d_color d) false (d_under d).
+  if d_italic d then set_pen s1 (if v_ital_white v && negb (pmid s) then white else pcol s1) true (d_under d)
+  else set_pen s1 (d_color d) false (d_under d).
 
-Definition feed (s : scr) (w : Z) : scr :=
+(* a channel-1 control pair that is acted upon *)
+Definition act (v : dev) (s : scr) (d : dec) : scr :=
+  let s1 :=
+    if d_cls d =? cPac then pac v s d else if d_cls d =? cMidRow then midrow v s d
+    else if d_cls d =? cControl then control v s (d_code d)
+    else if d_cls d =? cSpecial then put s (d_t1 d)
+    else if d_cls d =? cExtended then put (back s) (d_t1 d) else s in
+  set_pmid s1 (d_cls d =? cMidRow).
+(* is this word the second copy of a doubled control pair (section 6.4)? *)
+Definition is_second_copy (v : dev) (s : scr) (w : Z) : bool :=
+  match (if v_pad_keeps v then lastk s else last s) with Some pv => pv =? value w | None => false end.
+
+Definition feed (v : dev) (s : scr) (w : Z) : scr :=
   let d := decode w in
-  let v := value w in
+  let x := value w in
   if d_cls d =? cPad then set_last s None
   else if d_cls d =? cChars then
     let s := set_last s None in
     if chan s =? 1 then
-      let s1 := put s (d_t1 d) in if d_t2 d =? -1 then s1 else put s1 (d_t2 d)
+      let s1 := put (set_pmid (set_lastk s None) false) (d_t1 d) in if d_t2 d =? -1 then s1 else put s1 (d_t2 d)
     else s
-  else
-    (* section 6.4: the second of two identical consecutive control pairs is ignored *)
-    match last s with
-    | Some pv => if pv =? v then set_last s None else
-        let s := set_last s (Some v) in
-        if d_chan d =? 2 then set_chan s 2 else if negb (d_chan d =? 1) then s else
-        let s := set_chan s 1 in
-        if d_cls d =? cPac then pac s d else if d_cls d =? cMidRow then midrow s d
-        else if d_cls d =? cControl then control s (d_code d)
-        else if d_cls d =? cSpecial then put s (d_t1 d)
-        else if d_cls d =? cExtended then put (back s) (d_t1 d) else s
-    | None =>
-        let s := set_last s (Some v) in
-        if d_chan d =? 2 then set_chan s 2 else if negb (d_chan d =? 1) then s else
-        let s := set_chan s 1 in
-        if d_cls d =? cPac then pac s d else if d_cls d =? cMidRow then midrow s d
-        else if d_cls d =? cControl then control s (d_code d)
-        else if d_cls d =? cSpecial then put s (d_t1 d)
-        else if d_cls d =? cExtended then put (back s) (d_t1 d) else s
-    end.
+  else if negb (d_chan d =? 1) then
+    (* a control pair of the other data channel (or of no channel): data channel 1 is no longer addressed *)
+    let s := set_last s (if is_second_copy dev0 s w then None else Some x) in
+    if d_chan d =? 2 then set_chan s 2 else s
+  else if is_second_copy v s w then set_lastk (set_last s None) None
+  else act v (set_chan (set_lastk (set_last s (Some x)) (Some x)) 1) d.
 
 (* ------------------------------------------------------------------ what is seen: rows of styled characters *)
 Definition is_blank (c : cell) : bool := (ce_ch c =? -1) || (ce_ch c =? 32).
@@ -247,37 +273,40 @@ Definition frame_of (l : sline) : Z :=
 Definition time_of (df : bool) (n : Z) : Q := if df then Qmake (n * 1001) 30000 else Qmake n 30.
 
 (* the display after the words received before frame f: word i of a line at frame T is received at T+i+1 *)
-Fixpoint feed_until (s : scr) (F f : Z) (ws : list Z) : scr :=
-  match ws with [] => s | w :: ws' => if F <? f then feed_until (feed s w) (F + 1) f ws' else s end.
-Definition screen_state (ls : list sline) (f : Z) : scr :=
-  fold_left (fun s l => feed_until s (frame_of l) f (sl_words l)) ls scr0.
-Definition screen (ls : list sline) (f : Z) : vrows := rows_of_mem (disp (screen_state ls f)).
+Fixpoint feed_until (v : dev) (s : scr) (F f : Z) (ws : list Z) : scr :=
+  match ws with [] => s | w :: ws' => if F <? f then feed_until v (feed v s w) (F + 1) f ws' else s end.
+Definition screen_state (v : dev) (ls : list sline) (f : Z) : scr :=
+  fold_left (fun s l => feed_until v s (frame_of l) f (sl_words l)) ls scr0.
+(* the reference display at frame f *)
+Definition screen (ls : list sline) (f : Z) : vrows := rows_of_mem (disp (screen_state dev0 ls f)).
 
 (* a window: frames lo..hi during which the display may be any of `states` (in order) or what it was before *)
 Record win := mkWin { w_lo : Z ; w_hi : Z ; w_states : list vrows }.
-(* one line: the display-changing words with the number of second copies of doubled codes seen before them in
+(* one line: the display-changing words, with the number of second copies of doubled codes seen before them in
    the line.  Result: final state, last display, windows (most recent first). *)
-Fixpoint line_wins (ext : bool) (s : scr) (F : Z) (ws : list Z) (prev : vrows) (dups : Z) (acc : list win) : scr * vrows * list win :=
+Fixpoint line_wins (v : dev) (ext : bool) (s : scr) (F : Z) (ws : list Z) (prev : vrows) (dups : Z) (acc : list win)
+  : scr * vrows * list win :=
   match ws with
   | [] => (s, prev, acc)
   | w :: ws' =>
-      let s' := feed s w in
+      let s' := feed v s w in
       let now := rows_of_mem (disp s') in
-      let isdup := match last s with Some pv => (pv =? value w) && negb (d_cls (decode w) =? cPad) && negb (d_cls (decode w) =? cChars) | None => false end in
-      let dups' := if isdup then dups + 1 else dups in
-      if vrows_eqb prev now then line_wins ext s' (F + 1) ws' prev dups' acc
-      else line_wins ext s' (F + 1) ws' now dups' (mkWin (if ext then F - dups else F) (F + 2) [now] :: acc)
+      let d := decode w in
+      let second := negb (d_cls d =? cPad) && negb (d_cls d =? cChars) && (d_chan d =? 1) && is_second_copy v s w in
+      let dups' := if second then dups + 1 else dups in
+      if vrows_eqb prev now then line_wins v ext s' (F + 1) ws' prev dups' acc
+      else line_wins v ext s' (F + 1) ws' now dups' (mkWin (if ext then F - dups else F) (F + 2) [now] :: acc)
   end.
 (* S_word windows (ext = false) and the same windows extended to the left by the frames the reader does not
    count for the second copy of a doubled control code (ext = true) *)
-Definition word_wins (ext : bool) (ls : list sline) : list win :=
-  let '(_, _, acc) := fold_left (fun '(s, prev, acc) l => line_wins ext s (frame_of l) (sl_words l) prev 0 acc) ls (scr0, [], []) in
+Definition word_wins (v : dev) (ext : bool) (ls : list sline) : list win :=
+  let '(_, _, acc) := fold_left (fun '(s, prev, acc) l => line_wins v ext s (frame_of l) (sl_words l) prev 0 acc) ls (scr0, [], []) in
   rev acc.
 (* S_line windows: one per line that changes the display, [T, T+len+1], with the displays reached during the line *)
-Definition line_win (ls : list sline) : list win :=
+Definition line_win (v : dev) (ls : list sline) : list win :=
   let '(_, _, acc) :=
     fold_left (fun '(s, prev, acc) l =>
-                 let '(s', prev', ws) := line_wins false s (frame_of l) (sl_words l) prev 0 [] in
+                 let '(s', prev', ws) := line_wins v false s (frame_of l) (sl_words l) prev 0 [] in
                  match ws with
                  | [] => (s', prev', acc)
                  | _ => (s', prev', mkWin (frame_of l) (frame_of l + nlen (sl_words l) + 1) (flat_map w_states (rev ws)) :: acc)
@@ -319,20 +348,92 @@ Definition frame_range (ls : list sline) : list Z :=
 Fixpoint first_bad (eq : vrows -> vrows -> bool) (cs : list win) (seen : list (Z * vrows)) : option Z :=
   match seen with
   | [] => None
-  | (f, v) :: seen' => if accepts eq cs [] f v then first_bad eq cs seen' else Some f
+  | (f, x) :: seen' => if accepts eq cs [] f x then first_bad eq cs seen' else Some f
   end.
 Definition seen_rows (df : bool) (d : doc) (fs : list Z) : list (Z * vrows) := map (fun f => (f, rows_of_doc d (time_of df f))) fs.
 
-(* the oracles.  S_word: the property as stated.  The others delimit recorded findings (Findings/C08.v):
-   S_word_dup forgives exactly the frames the reader does not count for doubled codes; S_line gives every
-   line one window; the chars / order variants ignore attributes / row numbers. *)
-Definition S_word (ls : list sline) (df : bool) (d : doc) : option Z :=
-  first_bad vrows_eqb (chains None (word_wins false ls)) (seen_rows df d (frame_range ls)).
-Definition S_word_dup (ls : list sline) (df : bool) (d : doc) : option Z :=
-  first_bad vrows_eqb (chains None (word_wins true ls)) (seen_rows df d (frame_range ls)).
-Definition S_line (ls : list sline) (df : bool) (d : doc) : option Z :=
-  first_bad vrows_eqb (chains None (line_win ls)) (seen_rows df d (frame_range ls)).
-Definition S_line_chars (ls : list sline) (df : bool) (d : doc) : option Z :=
-  first_bad vrows_chars_eqb (chains None (line_win ls)) (seen_rows df d (frame_range ls)).
-Definition S_line_order (ls : list sline) (df : bool) (d : doc) : option Z :=
-  first_bad vrows_order_eqb (chains None (line_win ls)) (seen_rows df d (frame_range ls)).
+(* the oracles, parametrised by the deviations admitted (dev0: none), the window granularity
+   (0: S_word, 1: S_word with the windows extended by the uncounted second copies, 2: S_line) and the view
+   compared (0: rows, characters and attributes; 1: rows and characters; 2: characters in row order) *)
+Definition wins_of (v : dev) (gran : Z) (ls : list sline) : list win :=
+  chains None (if gran =? 0 then word_wins v false ls else if gran =? 1 then word_wins v true ls else line_win v ls).
+Definition view_eqb (view : Z) : vrows -> vrows -> bool :=
+  if view =? 0 then vrows_eqb else if view =? 1 then vrows_chars_eqb else vrows_order_eqb.
+Definition oracle (v : dev) (gran view : Z) (ls : list sline) (seen : list (Z * vrows)) : option Z :=
+  first_bad (view_eqb view) (wins_of v gran ls) seen.
+(* the property as stated: the standard, one window per display-changing word, everything compared *)
+Definition S_word (ls : list sline) (df : bool) (d : doc) : option Z := oracle dev0 0 0 ls (seen_rows df d (frame_range ls)).
+Definition S_line (ls : list sline) (df : bool) (d : doc) : option Z := oracle dev0 2 0 ls (seen_rows df d (frame_range ls)).
+
+(* ------------------------------------------------------------------ triggers of the recorded findings *)
+(* Executable predicates on the stream saying where a recorded deviation can show.  They are evaluated on the
+   run of the decoder with all deviations admitted (the run the reader follows). *)
+Definition tDUP := 1.        (* a second copy of a doubled pair precedes a display-changing word of its line *)
+Definition tPADDUP := 2.     (* a pair repeated after nulls / other-channel words is dropped *)
+Definition tLATE := 4.       (* roll-up / paint-on characters that do not directly follow the CR (roll-up) / PAC (paint-on)
+                                that opened their paragraph *)
+Definition tBASE := 8.       (* roll-up PAC for a row other than 15 *)
+Definition tITAL := 16.      (* mid-row italics while the pen colour is not white *)
+Definition tCLEAR := 32.     (* paint-on PAC for a row that shows something *)
+Definition tDER := 64.       (* DER with something to delete *)
+Definition tSPACE := 128.    (* paint-on: first pair of characters after a PAC / mid-row code ends in a space, pen not default *)
+Definition row_blank (m : mem) (r : Z) : bool := forallb is_blank (row_get m r).
+Definition bor (a b : Z) : Z := Z.lor a b.
+(* one word: (flags raised by this word, new value of the `gap` counter = words since the last CR in roll-up mode /
+   PAC in paint-on mode, new value of `fresh` = no character since the last PAC / mid-row code) *)
+Definition word_triggers (s : scr) (w : Z) (gap : Z) (fresh : bool) : Z * Z * bool :=
+  let d := decode w in
+  let v := dev_all in
+  if d_cls d =? cPad then (0, gap + 1, fresh)
+  else if d_cls d =? cChars then
+    if chan s =? 1 then
+      let direct := match md s with PopOn => false | _ => true end in
+      let late := if direct && (0 <? gap) then tLATE else 0 in
+      let pen_default := (pcol s =? white) && negb (pita s) && negb (pund s) in
+      let sp := match md s with
+                | PaintOn => if fresh && negb pen_default && negb (d_t1 d =? 32) &&
+                                (d_t2 d =? 32) then tSPACE else 0
+                | _ => 0
+                end in
+      (bor late sp, gap + 1, false)
+    else (0, gap + 1, fresh)
+  else if negb (d_chan d =? 1) then (0, gap + 1, fresh)
+  else if is_second_copy v s w then
+    ((if is_second_copy dev0 s w then 0 else tPADDUP), gap, fresh)
+  else
+    let c := d_cls d in
+    let code := d_code d in
+    let direct := match md s with PopOn => false | _ => true end in
+    if c =? cPac then
+      let base := match md s with RollUp _ => if d_row d =? 15 then 0 else tBASE | _ => 0 end in
+      let clr := match md s with PaintOn => if row_blank (disp s) (d_row d) then 0 else tCLEAR | _ => 0 end in
+      (bor base clr, (match md s with PaintOn => 0 | _ => gap + 1 end), true)
+    else if c =? cMidRow then
+      ((if d_italic d && negb (pcol s =? white) && negb (pmid s) then tITAL else 0), gap + 1, true)
+    else if c =? cControl then
+      if code =? kCR then (0, (match md s with RollUp _ => 0 | _ => gap + 1 end), fresh)
+      else if code =? kDER then
+        ((if forallb is_blank (skipn (Z.to_nat (ccol s)) (row_get (cur_mem s) (crow s))) then 0 else tDER), gap + 1, fresh)
+      else (0, gap + 1, fresh)
+    else if (c =? cSpecial) || (c =? cExtended) then
+      ((if direct && (0 <? gap) then tLATE else 0), gap + 1, false)
+    else (0, gap + 1, fresh)
+  .
+Fixpoint line_triggers (s : scr) (ws : list Z) (gap : Z) (fresh : bool) (dups : Z) (prev : vrows) (acc : Z)
+  : scr * Z * bool * vrows * Z :=
+  match ws with
+  | [] => (s, gap, fresh, prev, acc)
+  | w :: ws' =>
+      let '(fl, gap', fresh') := word_triggers s w gap fresh in
+      let d := decode w in
+      let second := negb (d_cls d =? cPad) && negb (d_cls d =? cChars) && (d_chan d =? 1) && is_second_copy dev_all s w in
+      let s' := feed dev_all s w in
+      let now := rows_of_mem (disp s') in
+      let changed := negb (vrows_eqb prev now) in
+      let fl := if changed && (0 <? dups) then bor fl tDUP else fl in
+      line_triggers s' ws' gap' fresh' (if second then dups + 1 else dups) now (bor acc fl)
+  end.
+Definition triggers (ls : list sline) : Z :=
+  let '(_, _, _, _, acc) :=
+    fold_left (fun '(s, gap, fresh, prev, acc) l => line_triggers s (sl_words l) (gap + 100) fresh 0 prev acc) ls (scr0, 100, false, [], 0) in
+  acc.
